@@ -2,7 +2,7 @@
 
 Level S correspondence: every transition of real AndersonCD runs (hook events) against the Lean
 moves; oracle: the optimality violation recomputed from X, y and the returned (w, b) alone."""
-from .solver_common import run_parallel
+from .solver_common import run_parallel, run_bbox
 
 LEAN_MODULES = ["Skglm.Properties.C01"]
 
@@ -14,6 +14,7 @@ def run(ctx, rep):
                 "starts; every hook event is one checked transition; a run is non-trivial when at least one outer "
                 "iteration was performed; distinct by generated case")
     run_parallel(ctx, rep, oracles=["cert", "buffer", "feasible"])
+    run_bbox(ctx, rep, oracles=["cert", "feasible"])
 
 
 def replay(ctx, payload):
